@@ -169,6 +169,13 @@ def replay_multi(rep: Report, pool: List[Tuple[Dict[str, Any], Dict[str, Any]]],
     for _ in range(n):
         k = rng.choice(keys)
         sel = [rng.choice(by[k]) for _ in range(rng.randint(2, 5))]
+        if rng.random() < 0.5:
+            # same tag and shape at DIFFERENT depths in one call (a factor cached per (tag, shape) would be wrong)
+            base = sel[0][0]
+            twins = [(c, e) for (c, e) in by[k] if c["tag"] == base["tag"] and c["shape"] == base["shape"] and c["depth"] != base["depth"]]
+            if twins:
+                sel += rng.sample(twins, min(2, len(twins)))
+                rng.shuffle(sel)
         lrkind = rng.choice(["float", "tensor", "tensor64"])
         via = rng.choice(["scaled_parameters", "class"])
         form = rng.choice(["list", "gen", "one_group"])
